@@ -5,13 +5,14 @@ from typing import final
 from ..common import Dumper, Loader, TypeHint
 from ..provider.essential import CannotProvide, Mediator
 from ..provider.loc_stack_filtering import ExactOriginLSC
-from ..provider.located_request import LocatedRequestMethodsProvider
+from ..provider.located_request import LocatedRequest, LocatedRequestMethodsProvider
 from ..provider.methods_provider import method_handler
 from ..type_tools import normalize_type
 from .json_schema.definitions import JSONSchema
 from .json_schema.request_cls import JSONSchemaRequest
 from .json_schema.schema_model import JSONSchemaDialect
 from .request_cls import DumperRequest, LoaderRequest
+from .utils import try_normalize_type
 
 
 class LoaderProvider(LocatedRequestMethodsProvider, ABC):
@@ -60,13 +61,19 @@ class ABCProxy(LoaderProvider, DumperProvider):
         self._for_loader = for_loader
         self._for_dumper = for_dumper
 
+    def _get_impl_type(self, request: LocatedRequest) -> TypeHint:
+        norm = try_normalize_type(request.last_loc.type)
+        if norm.args:
+            return self._impl[tuple(arg.source for arg in norm.args)]
+        return self._impl
+
     def provide_loader(self, mediator: Mediator, request: LoaderRequest) -> Loader:
         if not self._for_loader:
             raise CannotProvide
 
         return mediator.mandatory_provide(
             LoaderRequest(
-                loc_stack=request.loc_stack.replace_last_type(self._impl),
+                loc_stack=request.loc_stack.replace_last_type(self._get_impl_type(request)),
             ),
             lambda x: f"Cannot create loader for union. Loader for {self._impl} cannot be created",
         )
@@ -77,7 +84,7 @@ class ABCProxy(LoaderProvider, DumperProvider):
 
         return mediator.mandatory_provide(
             DumperRequest(
-                loc_stack=request.loc_stack.replace_last_type(self._impl),
+                loc_stack=request.loc_stack.replace_last_type(self._get_impl_type(request)),
             ),
             lambda x: f"Cannot create dumper for union. Dumper for {self._impl} cannot be created",
         )
